@@ -415,9 +415,16 @@ func (c *Chain) buildFrom(start, root *gorm.DB) *gorm.DB {
 	if c.Group != "" {
 		tx = tx.Group(c.Group)
 	}
+	for _, h := range c.PreHavings {
+		q, a := h.call(root)
+		tx = tx.Having(q, a...)
+	}
 	if c.Having != nil {
 		q, a := c.Having.call(root)
 		tx = tx.Having(q, a...)
+	}
+	for _, o := range c.PreOrders {
+		tx = tx.Order(o)
 	}
 	if c.OrderStr != "" {
 		tx = tx.Order(c.OrderStr)
@@ -496,7 +503,14 @@ func (c *Chain) Apply(root *gorm.DB) *gorm.DB { return c.ApplyFrom(root, root) }
 
 // ApplyFrom performs the chain starting on the handle start, see buildFrom.
 func (c *Chain) ApplyFrom(start, root *gorm.DB) *gorm.DB {
-	tx := c.buildFrom(start, root)
+	return c.FinishOn(c.buildFrom(start, root), root)
+}
+
+// BuildFrom performs every call of the chain except the finisher and returns the chain value.
+func (c *Chain) BuildFrom(start, root *gorm.DB) *gorm.DB { return c.buildFrom(start, root) }
+
+// FinishOn calls the chain's finisher on tx, a chain value produced by BuildFrom.
+func (c *Chain) FinishOn(tx, root *gorm.DB) *gorm.DB {
 	var inl []interface{}
 	if c.Inline != nil {
 		q, a := c.Inline.call(root)
